@@ -79,7 +79,13 @@ def allclose_rules(repo, res):
     for x in sums:
         if x.kind == "return" and x.value.startswith("np.allclose("):
             call = ast.parse(x.value).body[0].value
-            finals.append((x, [norm(a_).replace(".to(", ".in_units(") for a_ in call.args], [k.arg for k in call.keywords]))
+            # np.allclose(a, b, rtol, atol, equal_nan): tolerances may be passed by position or by keyword
+            args_ = list(call.args)
+            kws_ = {k.arg: k.value for k in call.keywords if k.arg is not None}
+            for name_ in ("rtol", "atol")[max(0, len(args_) - 2):]:
+                if name_ in kws_:
+                    args_.append(kws_.pop(name_))
+            finals.append((x, [norm(a_).replace(".to(", ".in_units(") for a_ in args_], [k.arg for k in call.keywords if k.arg in kws_ or k.arg is None]))
     if len(finals) < 2:
         raise AnalysisError(f"{fn.where()}: the final np.allclose(...) was not found on both atol routes")
     A = f"unyt_array({actual})"
